@@ -244,7 +244,10 @@ def _shadow_harness(runner):
 
 ERR_FUNCS = {"returns-error": "host_err", "raises-ValueError": "host_raise_value", "raises-TypeError": "host_raise_type"}
 ERR_CTX = [("f(a) > 0 || true", True), ("true || f(a) > 0", True), ("f(a) > 0 && false", False), ("false && f(a) > 0", False),
-           ("true ? 7 : f(a)", 7), ("f(a)", "error"), ("f(a) > 0 || false", "error"), ("a.f() > 0 || true", True)]
+           ("true ? 7 : f(a)", 7), ("f(a)", "error"), ("f(a) > 0 || false", "error"), ("a.f() > 0 || true", True),
+           # method and global form with further arguments of several kinds (int, double, list, string)
+           ("a.f(1) > 0 || true", True), ("a.f(2.5, [a]) > 0 || true", True), ("a.f('s')", "error"), ("f(a, 1, 'x') > 0 || true", True), ("[a].f(a) == 1 && false", False),
+           ("a.f(1u)", "error"), ("false ? 1 : a.f(a, a)", "error")]
 
 
 def _error_harnesses(runner):
@@ -391,9 +394,12 @@ def _unbound_harness(runner):
     celpy, ct, ev = common.mods()
     A = z3.Int("a")
     progs = {}
-    for src in ("nosuch(a)", "a.nosuch()", "nosuch(a) > 0 || true"):
+    # `limit` and `label` are declared variables (annotations), not functions: calling them is calling an unbound function
+    decls = {"limit": ct.IntType, "label": ct.StringType, "a": ct.IntType}
+    for src, ann in (("nosuch(a)", None), ("a.nosuch()", None), ("nosuch(a) > 0 || true", None),
+                     ("limit(a)", decls), ("a.limit()", decls), ("label(a)", decls), ("limit(a) > 0 || true", decls), ("a.label() == 'x' && false", decls)):
         try:
-            progs[src] = common.make_program(src, runner, functions={"f": host_f})
+            progs[src] = common.make_program(src, runner, functions={"f": host_f}, annotations=ann)
         except Exception as ex:  # noqa: BLE001
             progs[src] = ex
 
@@ -401,11 +407,15 @@ def _unbound_harness(runner):
         obs = []
         for src, p in progs.items():
             if isinstance(p, Exception):
-                obs.append(Ob(f"C14/unbound/program-construction@{runner}", z3.BoolVal(False), note=f"{type(p).__name__}", tags={"exc": type(p).__name__}))
+                obs.append(Ob(f"C14/unbound/program-construction@{runner}", z3.BoolVal(False), note=f"`{src}`: {type(p).__name__}", tags={"exc": type(p).__name__}))
                 continue
-            kd, r = common.outcome(lambda: p.evaluate({"a": ct.IntType(mk(SInt, A, vals["a"]))}))
-            want = "value" if "||" in src else "error"
-            obs.append(Ob(f"C14/unbound/is-evaluation-error@{runner}", z3.BoolVal(kd == want), note=f"`{src}`: {kd} {str(r)[:80]}", tags={"outcome": kd}))
+            for extra in ({}, {"limit": ct.IntType(3), "label": ct.StringType("x")}):
+                if extra and "limit" not in src and "label" not in src:
+                    continue
+                kd, r = common.outcome(lambda: p.evaluate({"a": ct.IntType(mk(SInt, A, vals["a"])), **extra}))
+                want = "value" if ("||" in src or "&&" in src) else "error"
+                obs.append(Ob(f"C14/unbound/is-evaluation-error@{runner}", z3.BoolVal(kd == want),
+                              note=f"`{src}`{' with the variable bound' if extra else ''}: {kd} {str(r)[:80]}", tags={"outcome": kd}))
         return obs
 
     def witness(vals):
